@@ -20,7 +20,7 @@ EXPLANATION = (
     " (R6) the MT writer's public calls are total: no explicit panic in any of its functions — the Done state, which send() enters by itself when the writer thread has failed, is an error exit (genuine defect F9, repaired; the MT reader's identical construct is the matcher's positive control, its Done state is only entered by the caller's own finish())."
     " (R7) one necessary condition of 'seek and finish always terminate' is structural: the MT reader's ticket queue and recycle queue are bounded by the same value n as the priming loop 0..n (or n + k), so the reader thread can never block in send() while pause()/finish() join it."
     " (R8) the MT reader's seek is an instance of the seek typestate rule of C02.R1: the in-block cursor is positioned only after this very seek repositioned the source and loaded the block."
-    " (R9) sibling agreement: the sequential loader behind fill_buf / poll_fill_buf of every BGZF reader (single-threaded, indexed, multithreaded, async) keeps loading while the block it received is empty — the block stamp sits in a loop with an exit controlled by the block's data length.")
+    " (R9) sibling agreement: the sequential loader behind fill_buf / poll_fill_buf of every BGZF reader (single-threaded, indexed, multithreaded, async) keeps loading while the block it received is empty — the block stamp sits in a loop with an exit controlled by the block's data length. (R10) a failed block costs the multithreaded reader neither a buffer nor its place (genuine defect F64, repaired).")
 ASSUMPTIONS = ["crossbeam channels are FIFO and Receiver::recv blocks until a value or disconnect",
                "rayon::spawn runs the closure exactly once",
                "std::thread::JoinHandle::join returns the closure's value"]
@@ -97,7 +97,7 @@ def run(ctx):
         sends = R.find_calls(rt, r"crossbeam_channel::channel::Sender::<T>::send$")
         reads = R.find_calls(rt, r"reader::frame::read_frame_into$")
         ok = len(sends) == 1 and len(reads) == 1 and C.dominates(rt, reads[0][0], sends[0][0]) and \
-            "Receiver<core::result::Result<" in sends[0][1].get("ga", "")
+            re.search(r"Receiver<\(?core::result::Result<", sends[0][1].get("ga", "")) is not None
         if ok:
             ctx.ok("C03.R2", rt.key + " :: the reader thread itself enqueues the ticket after read_frame_into, in file order", "", rt.loc())
         else:
@@ -132,8 +132,11 @@ def run(ctx):
     frb = ctx.anchor("C03.R3", MR + "recv_buffer")
     if frb is not None:
         recvs = R.find_calls(frb, r"crossbeam_channel::channel::Receiver::<T>::recv$")
-        nonblocking = R.find_calls(frb, r"Receiver::<T>::(try_recv|recv_timeout|recv_deadline|try_iter)$")
-        if nonblocking or len(recvs) != 2 or not C.dominates(frb, recvs[0][0], recvs[1][0]):
+        nonblocking = [x for g in fb.family(frb.key) for x in R.find_calls(g, r"Receiver::<T>::(try_recv|recv_timeout|recv_deadline|try_iter)$")]
+        # the second receive may sit in a closure applied to the result of the first (`.and_then(|ticket| ticket.recv().ok())`)
+        inner = [x for g in fb.family(frb.key) if g.is_closure for x in R.find_calls(g, r"crossbeam_channel::channel::Receiver::<T>::recv$")]
+        chained = len(recvs) == 1 and len(inner) == 1 and bool(R.find_calls(frb, r"option::Option::<T>::and_then$|result::Result::<T, E>::and_then$"))
+        if nonblocking or not ((len(recvs) == 2 and C.dominates(frb, recvs[0][0], recvs[1][0])) or chained):
             ctx.violation("C03.R3", "C03.R3/recv_buffer/" + frb.key, "recv_buffer no longer blocks on the ticket and then on its result", frb.loc())
         else:
             ctx.ok("C03.R3", frb.key + " :: ticket.recv() then result.recv(), both blocking", "", frb.loc())
@@ -267,6 +270,46 @@ def run(ctx):
                                   "queue, never return (every seek, get_mut, finish and drop)" % what, fres.loc(b))
 
     # ---------------------------------------------------------------- R8 MT reader seek: same typestate as the ST reader
+
+    ctx.rule("C03.R10", "a failed block costs the multithreaded reader neither a buffer nor its place: the worker sends the pooled buffer back "
+                        "WITH its result (the ticket carries (Result, Buffer)), and read_block recycles that buffer and advances the running "
+                        "position over the frame before it returns the error — like the single-threaded reader since F63 (genuine defect F64, "
+                        "repaired: one buffer leaked per failed block, later virtual positions differed from the single-threaded reader's)")
+    frb10 = ctx.anchor("C03.R10", MR + "MultithreadedReader::<R>::read_block")
+    if frb10 is not None:
+        ctx.saw_fn(frb10)
+        errs = [bi for bi, blk in enumerate(frb10.blocks) if not blk.get("cu") for st in blk["s"]
+                if st[0] == "=" and st[1][0] == 0 and not st[1][1] and st[2][0] == "agg" and st[2][3] == "Err"]
+        errs += [b for b, c in frb10.calls() if (c.get("f") or "").endswith("::from_residual")]
+        sends = {b for b, c in R.find_calls(frb10, r"crossbeam_channel::channel::Sender::<T>::send$")}
+        moves = {bi for bi, blk in enumerate(frb10.blocks) if not blk.get("cu") for st in blk["s"]
+                 if st[0] == "=" and any(isinstance(p_, list) and p_[0] == "f" and p_[2] == "position" for p_ in st[1][1])}
+        if not errs:
+            ctx.violation("C03.R10", "C03.R10/ANCHOR-MISSING/read_block/error-exit", "read_block has no error exit: a failed block is no longer reported here", frb10.loc())
+        else:
+            bad10 = [e for e in errs if e in C.reachable(frb10, 0, removed=sends) or e in C.reachable(frb10, 0, removed=moves)]
+            if bad10:
+                ctx.violation("C03.R10", "C03.R10/failed-block-not-accounted/" + frb10.key,
+                              "read_block returns the error of a failed block on a path that does not recycle the block's buffer or does not "
+                              "advance the position over the frame: the pool shrinks by one buffer per failed block (the reader thread ends up "
+                              "waiting for a buffer that never comes back) and later virtual positions are too small", frb10.loc(bad10[0]))
+            else:
+                ctx.ok("C03.R10", frb10.key, "every error exit passes recycle_tx.send and the position update", frb10.loc(errs[0]))
+    if rt is not None:
+        sends10 = R.find_calls(rt, r"crossbeam_channel::channel::Sender::<T>::send$")
+        wk10 = [g for g in fb.family(rt.key) if g.is_closure and g.key != rt.key and R.find_calls(g, r"reader::frame::parse_block$")]
+        okw = False
+        for g in wk10:
+            for b, c in R.find_calls(g, r"crossbeam_channel::channel::Sender::<T>::send$"):
+                if re.search(r"\(core::result::Result<\(\), std::io::error::Error>, .*Buffer\)", c.get("ga", "") or ""):
+                    okw = True
+        if okw:
+            ctx.ok("C03.R10", rt.key + " :: the worker sends (result, buffer): the buffer comes back on the error path too", "", rt.loc())
+        else:
+            ctx.violation("C03.R10", "C03.R10/buffer-dropped-with-error/" + rt.key,
+                          "the inflate worker does not send the pooled buffer together with its result: on a parse error the buffer is dropped "
+                          "and the reader thread has one buffer less for every failed block", rt.loc())
+
     ctx.rule("C03.R8", "A3 typestate after seeks (the C02.R1 instance for the MT reader): seek_to_virtual_position positions the in-block cursor only "
                        "after this very seek repositioned the source and loaded the block — no shortcut that keeps the current block")
     mts = "<noodles_bgzf::io::multithreaded_reader::MultithreadedReader<R> as noodles_bgzf::io::seek::Seek>::seek_to_virtual_position"
